@@ -66,7 +66,7 @@ Theorem C16_at_most_one_stop : forall (is5 : bool) (cf : list N) (ops : list (li
   Forall field_ok ops ->
   let s := init_st is5 cf in
   (exists ws, cumwire (trace ops s) = flat3 ws /\ (ndisc ws <= 1)%nat /\
-     (forall x, In x ws -> is_disc x = true -> snd (fst x) = 0 /\ if is5 then 128 <= snd x else snd x = 0)) /\
+     (forall x, In x ws -> trip_wf x /\ (is_disc x = true -> snd (fst x) = 0 /\ if is5 then 128 <= snd x else snd x = 0))) /\
   (forall s', In s' (trace ops s) -> stops (l_ s') <= 1) /\
   run_ops ops s = map observe (trace ops s).
 Proof. exact server_run. Qed.
